@@ -196,8 +196,8 @@ def parse_tv(ts):
 class Func:
     def __init__(self): self.name=None; self.ret=None; self.params=[]; self.va=False; self.blocks=[]; self.defined=False; self.attrs=set(); self.linkage=''
 class Inst:
-    __slots__=('op','res','ty','ops','x','c','h')
-    def __init__(self, op, res=None, ty=None, ops=None, x=None): self.op=op; self.res=res; self.ty=ty; self.ops=ops or []; self.x=x; self.c=None; self.h=None
+    __slots__=('op','res','ty','ops','x','c','h','dbg','lib')
+    def __init__(self, op, res=None, ty=None, ops=None, x=None): self.op=op; self.res=res; self.ty=ty; self.ops=ops or []; self.x=x; self.c=None; self.h=None; self.dbg=None; self.lib=None
 
 class Module:
     def __init__(self):
@@ -205,6 +205,10 @@ class Module:
         self.globals = collections.OrderedDict()  # name -> (type, init V or None, const)
         self.funcs = collections.OrderedDict()
         self.attrgroups = {}
+        self.md = {}   # debug metadata: id -> (kind, scope, file, inlinedAt, filename)
+
+MD_RE = re.compile(r'^!(\d+) = (?:distinct )?!(DILocation|DISubprogram|DILexicalBlock|DILexicalBlockFile|DIFile)\((.*)\)\s*$')
+DBG_RE = re.compile(r'!dbg !(\d+)')
 
 def strip_comment(line):
     # remove ; comments outside quotes
@@ -229,7 +233,16 @@ def parse_module(text):
     while i < len(lines):
         l = lines[i]; i += 1
         if not l.strip(): continue
-        if l.startswith('source_filename') or l.startswith('target ') or l.startswith('!') or l.startswith('$'): continue
+        if l.startswith('!'):
+            mm = MD_RE.match(l)
+            if mm:
+                body = mm.group(3)
+                def fld(rx):
+                    x = re.search(rx, body); return x.group(1) if x else None
+                sc = fld(r'scope: !(\d+)'); fi = fld(r'file: !(\d+)'); ia = fld(r'inlinedAt: !(\d+)')
+                m.md[int(mm.group(1))] = (mm.group(2), int(sc) if sc else None, int(fi) if fi else None, int(ia) if ia else None, fld(r'filename: "([^"]*)"'))
+            continue
+        if l.startswith('source_filename') or l.startswith('target ') or l.startswith('$'): continue
         if l.startswith('attributes '):
             mm = re.match(r'attributes (#\d+) = \{(.*)\}', l)
             m.attrgroups[mm.group(1)] = set(re.findall(r'[a-z_]+', re.sub(r'"[^"]*"(="[^"]*")?', '', mm.group(2))))
@@ -257,6 +270,7 @@ def parse_module(text):
             continue
         if l.startswith('declare') or l.startswith('define'):
             ts = TS(tokenize(l)); f = Func(); f.defined = ts.next()[1] == 'define'
+            dm = DBG_RE.search(l); f.dbg = int(dm.group(1)) if dm else None
             while not is_type_start(ts.peek()) or (ts.peek()[0]=='word' and ts.peek()[1] in FN_WORDS):
                 k, v = ts.next()
                 if v == 'align': ts.next()
@@ -362,10 +376,10 @@ def join_multiline(lines):
     for l in lines:
         if buf is not None:
             buf += ' ' + l.strip()
-            if l.strip().endswith(']') : out.append(buf); buf = None
+            if l.strip().endswith(']') or l.strip().startswith(']'): out.append(buf); buf = None
             continue
         s = l.strip()
-        if s.startswith('switch ') and not s.endswith(']'):
+        if s.startswith('switch ') and not s.endswith(']') and '] ' not in s and not re.search(r'\],', s):
             buf = s; continue
         if re.match(r'(%\S+ = )?landingpad', s):
             out.append(s); continue
@@ -443,6 +457,8 @@ def parse_body(m, f):
             res = unq(ts.next()[1]); ts.next()
         op = ts.next()[1]
         ins = Inst(op, res)
+        dm = DBG_RE.search(s)
+        if dm: ins.dbg = int(dm.group(1))
         if op == 'load':
             at = ts.accept('atomic'); ts.accept('volatile'); ins.ty = parse_type(ts); ts.expect(','); ins.ops = [parse_tv(ts)]; ins.x = (ts.peek()[1] if ts.peek()[0] == 'word' else 'seq_cst') if at else None
         elif op == 'store':
@@ -466,6 +482,7 @@ def parse_body(m, f):
             while True:
                 ts.expect('['); v = parse_value(ts, ins.ty); ts.expect(','); lb = unq(ts.next()[1]); ts.expect(']'); inc.append((v, lb))
                 if not ts.accept(','): break
+                if ts.peek()[0] == 'meta': break
             ins.x = inc
         elif op == 'select':
             c = parse_tv(ts); ts.expect(','); a = parse_tv(ts); ts.expect(','); b = parse_tv(ts); ins.ops=[c,a,b]; ins.ty = a.t
@@ -489,14 +506,18 @@ def parse_body(m, f):
         elif op == 'unreachable': pass
         elif op == 'alloca':
             ts.accept('inalloca'); ins.x = parse_type(ts); ins.ops = []
-            if ts.accept(',') and ts.peek()[1] != 'align': ins.ops = [parse_tv(ts)]
+            if ts.accept(',') and ts.peek()[1] != 'align' and ts.peek()[0] != 'meta': ins.ops = [parse_tv(ts)]
         elif op == 'extractvalue':
             a = parse_tv(ts); idx = []
-            while ts.accept(','): idx.append(int(ts.next()[1]))
+            while ts.accept(','):
+                if ts.peek()[0] == 'meta': break
+                idx.append(int(ts.next()[1]))
             ins.ops=[a]; ins.x = idx
         elif op == 'insertvalue':
             a = parse_tv(ts); ts.expect(','); b = parse_tv(ts); idx = []
-            while ts.accept(','): idx.append(int(ts.next()[1]))
+            while ts.accept(','):
+                if ts.peek()[0] == 'meta': break
+                idx.append(int(ts.next()[1]))
             ins.ops=[a,b]; ins.x = idx; ins.ty = a.t
         elif op == 'atomicrmw':
             ts.accept('volatile'); ins.x = ts.next()[1]; p = parse_tv(ts); ts.expect(','); v = parse_tv(ts); ins.ops=[p,v]; ins.ty = v.t
